@@ -8,6 +8,8 @@ def judge_factory(rec, cfg):
     V = []
     def v(p, rule, msg): V.append((p, rule, msg))
     kinds = [k for k, _, _ in rec.nodes]
+    if rec.crash is None:
+        for x in rec.instant_viol: V.append(x)
     # ---------------- crash / livelock (C20)
     if rec.crash is not None:
         if rec.crash[0] == "livelock":
